@@ -386,3 +386,18 @@ def inull(m, ncols=None):
 
 def all_int(vs):
     return all(type(x) is int for v in vs for x in v)
+
+
+def idet4(m):
+    """Integer determinant of a 4x4 (or any small) integer matrix by cofactor expansion."""
+    n = len(m)
+    if n == 1:
+        return m[0][0]
+    if n == 2:
+        return m[0][0] * m[1][1] - m[0][1] * m[1][0]
+    s = 0
+    for j in range(n):
+        if m[0][j]:
+            t = m[0][j] * idet4([r[:j] + r[j + 1 :] for r in m[1:]])
+            s = s + t if j % 2 == 0 else s - t
+    return s
